@@ -102,5 +102,5 @@ QuadClauses(e) ==
         ExactToDegree |-> exact,
         ExactBelowTop |-> exact \/ ExactBelowTop(e)] @@
        (IF e.n > TableMax(e.kind) THEN [RefusesOutsideTable |-> exact] ELSE <<>>) @@
-       (IF e.kind \in TensorKinds THEN [TensorStructure |-> TensorStructure(e)] ELSE <<>>)
+       (IF e.kind \in TensorKinds THEN [Drift_TensorStructure |-> TensorStructure(e)] ELSE <<>>)   \* informational: not demanded by C08
 ==============================================================================
